@@ -6,8 +6,8 @@ from . import common
 from .common import Report, Scratch, MachineryError
 
 C01_CLAUSES = {'points_differ_from_exact_formula', 'raised_instead_of_score', 'age_handling_differs', 'unknown_pair_not_none'}
-C05_CLAUSES = {'better_mark_scores_fewer_points'}
-C09_CLAUSES = {'needed_mark_scores_less_than_target', 'next_worse_mark_also_reaches_target', 'needed_mark_off_grid',
+C05_CLAUSES = {'better_mark_scores_fewer_points', 'raised_instead_of_score'}
+C09_CLAUSES = {'negative_target_differs_from_zero_target', 'needed_mark_scores_less_than_target', 'next_worse_mark_also_reaches_target', 'needed_mark_off_grid',
                'unknown_pair_not_none'}
 
 
@@ -74,6 +74,11 @@ def _need_job(job):
     import athlib
     g, e, known, targets = job
     out = []
+    try:
+        p0 = athlib.athlon_performance_needed(g, e, 0)
+        perf0 = int(round(p0 * 100)) if p0 is not None else -1
+    except Exception:
+        perf0 = -2
     for t in targets:
         try:
             p = athlib.athlon_performance_needed(g, e, t)
@@ -89,7 +94,7 @@ def _need_job(job):
         ongrid = abs(p * 100 - pc) < 1e-6
         track = athlib.athlon_score.__globals__['unit_name'](e) == 'seconds'
         worse = (pc + 1) / 100.0 if track else (pc - 1) / 100.0
-        out.append({'k': 'need', 'g': g, 'e': e, 't': t, 'known': True, 'none': False, 'ongrid': ongrid, 'perf': pc,
+        out.append({'k': 'need', 'g': g, 'e': e, 't': t, 'known': True, 'none': False, 'ongrid': ongrid, 'perf': pc, 'perf0': perf0,
                     'sAt': call(athlib.athlon_score, g, e, p), 'sWorse': call(athlib.athlon_score, g, e, worse), 'n': 3})
     return out
 
